@@ -213,7 +213,7 @@ func SlotMutations(base string) []string {
 		}
 		i = j
 	}
-	for _, sep := range []string{".", "-", "_", "+", "~", ""} {
+	for _, sep := range []string{".", "-", "_", "+", "~", "^", ""} {
 		for _, t := range SlotWords {
 			out = append(out, base+sep+t)
 		}
